@@ -16,16 +16,16 @@ wt=/tmp/sc_$name
 git -C /repo worktree remove --force $wt 2>/dev/null
 git -C /repo worktree add -q --detach $wt HEAD
 cp $src/$demo $wt/$pkgdir/zz_seed_demo_test.go
-run=$(grep -oE 'func (Test[A-Za-z0-9_]+)' $src/$demo | head -1 | sed 's/func //')
+run="^($(grep -oE 'func (Test[A-Za-z0-9_]+)' $src/$demo | sed 's/func //' | tr '\n' '|' | sed 's/|$//'))\$"
 cd $wt
-without=$(go test -vet=off -count=1 -run "^Test(Seed|Demo)" ./$pkgdir/ 2>&1 | tail -3); rc_without=$?
-go test -vet=off -count=1 -run "^Test(Seed|Demo)" ./$pkgdir/ >/dev/null 2>&1; rc_without=$?
+without=$(go test -vet=off -count=1 -run "$run" ./$pkgdir/ 2>&1 | tail -3); rc_without=$?
+go test -vet=off -count=1 -run "$run" ./$pkgdir/ >/dev/null 2>&1; rc_without=$?
 git apply $src/patch.diff; rc_apply=$?
 go build ./cmd/rdpgw/... ./cmd/auth/ntlm/... ./cmd/auth/database/... >/dev/null 2>&1; rc_build=$?
 mv $wt/$pkgdir/zz_seed_demo_test.go /tmp/zz_seed_demo_$name.go
 go test -vet=off -count=1 ./cmd/rdpgw/... ./cmd/auth/ntlm/ ./cmd/auth/database/ >/tmp/sc_suite_$name.log 2>&1; rc_suite=$?
 mv /tmp/zz_seed_demo_$name.go $wt/$pkgdir/zz_seed_demo_test.go
-go test -vet=off -count=1 -run "^Test(Seed|Demo)" ./$pkgdir/ >/tmp/sc_demo_$name.log 2>&1; rc_with=$?
+go test -vet=off -count=1 -run "$run" ./$pkgdir/ >/tmp/sc_demo_$name.log 2>&1; rc_with=$?
 cd /verif
 git -C /repo worktree remove --force $wt
 # run the check on /repo with the change applied
